@@ -159,6 +159,68 @@ Section Trace.
     /\ (isinput n = true \/ c n <> VNone -> snd (evalT f c n) = []).
   Proof. split; [apply evalT_complete|apply evalT_cached]. Qed.
 
+  (* ------------------- the trace contains EVERY cache entry the value depends on *)
+  (* two caches that agree on the evaluated node and on every cell of the trace
+     give the same value, the same trace, and caches that still agree there *)
+  Definition agreeT (T : nat -> Prop) (c1 c2 : cache) : Prop := forall m, T m -> c1 m = c2 m.
+
+  Definition det_ok (f : nat) (T : nat -> Prop) := forall (c1 c2 : cache) d, T d ->
+    (forall r x, In (r, x) (snd (evalT f c1 d)) -> T x) -> agreeT T c1 c2 ->
+    snd (fst (evalT f c2 d)) = snd (fst (evalT f c1 d))
+    /\ snd (evalT f c2 d) = snd (evalT f c1 d)
+    /\ agreeT T (fst (fst (evalT f c1 d))) (fst (fst (evalT f c2 d))).
+
+  Lemma tfold_det f n T : det_ok f T ->
+    forall l (c1 c2 : cache) (vs : list pyval) (t : list (nat * nat)),
+      (forall r x, In (r, x) (snd (fold_left (tstep f n) l (c1, vs, t))) -> T x) ->
+      agreeT T c1 c2 ->
+      snd (fst (fold_left (tstep f n) l (c2, vs, t))) = snd (fst (fold_left (tstep f n) l (c1, vs, t)))
+      /\ snd (fold_left (tstep f n) l (c2, vs, t)) = snd (fold_left (tstep f n) l (c1, vs, t))
+      /\ agreeT T (fst (fst (fold_left (tstep f n) l (c1, vs, t))))
+                  (fst (fst (fold_left (tstep f n) l (c2, vs, t)))).
+  Proof.
+    intros IH. induction l as [|d l IHl]; intros c1 c2 vs t HT Ag; cbn [fold_left].
+    - cbn [fst snd]. auto.
+    - cbn [fold_left] in HT. unfold tstep at 2 in HT. unfold tstep at 2 4 6 8 10 12.
+      specialize (IH c1 c2 d).
+      destruct (evalT f c1 d) as [[c1' v1] t1]. destruct (evalT f c2 d) as [[c2' v2] t2].
+      cbn [fst snd] in IH.
+      assert (In1: forall x, In x (t ++ (n, d) :: t1) ->
+                     In x (snd (fold_left (tstep f n) l (c1', vs ++ [v1], t ++ (n, d) :: t1)))).
+      { intros x Hx. apply tfold_mono. exact Hx. }
+      destruct IH as (Ev & Et & Ag').
+      + apply (HT n d). apply In1. apply in_or_app. right. left. reflexivity.
+      + intros r x Hx. apply (HT r x). apply In1. apply in_or_app. right. right. exact Hx.
+      + exact Ag.
+      + subst v2 t2. apply IHl; [exact HT|exact Ag'].
+  Qed.
+
+  Lemma evalT_det : forall f T, det_ok f T.
+  Proof.
+    induction f as [|f IH]; intros T c1 c2 n Tn HT Ag.
+    - cbn. auto.
+    - rewrite evalT_unfold in HT. rewrite !evalT_unfold. rewrite <- (Ag n Tn).
+      destruct (isinput n); [cbn [fst snd]; auto|].
+      destruct (is_none (c1 n)); [|cbn [fst snd]; auto].
+      pose proof (tfold_det f n T (IH T) (deps n) c1 c2 [] []) as H.
+      destruct (fold_left (tstep f n) (deps n) (c1, [], [])) as [[c1' vals1] tr1].
+      destruct (fold_left (tstep f n) (deps n) (c2, [], [])) as [[c2' vals2] tr2].
+      cbn [fst snd] in *. destruct (H HT Ag) as (Ev & Et & Ag'). subst vals2 tr2.
+      split; [reflexivity|]. split; [reflexivity|].
+      intros m Tm. unfold upd. destruct (Nat.eqb m n); [reflexivity|apply Ag', Tm].
+  Qed.
+
+  Theorem trace_determines f (c1 c2 : cache) n : c1 n = c2 n ->
+    (forall r d, In (r, d) (snd (evalT f c1 n)) -> c1 d = c2 d) ->
+    snd (eval f c2 n) = snd (eval f c1 n) /\ snd (evalT f c2 n) = snd (evalT f c1 n).
+  Proof.
+    intros En Ed. rewrite <- !evalT_eval.
+    destruct (evalT_det f (fun m => m = n \/ exists r, In (r, m) (snd (evalT f c1 n))) c1 c2 n)
+      as (Ev & Et & _); auto.
+    - intros r x Hx. right. exists r. exact Hx.
+    - intros m [->|[r Hr]]; [exact En|eapply Ed; eauto].
+  Qed.
+
   (* ---------------------------------------------------------- build *)
   Definition btstep (s : state) (b' : nat -> bool) (acc : cache * rtrace) (m : nat) : cache * rtrace :=
     let '(c, t) := acc in
